@@ -78,7 +78,7 @@ var reflectNatives = map[string]interface{}{
 	"path/filepath.Ext": filepath.Ext, "path/filepath.Clean": filepath.Clean,
 	"internal/bytealg.IndexByteString": strings.IndexByte, "internal/bytealg.IndexString": strings.Index,
 	"internal/bytealg.CountString": func(s string, c byte) int { return strings.Count(s, string(c)) },
-	"net/url.Parse": url.Parse, "net/url.QueryEscape": url.QueryEscape, "net/url.PathEscape": url.PathEscape,
+	"net/url.Parse":                url.Parse, "net/url.QueryEscape": url.QueryEscape, "net/url.PathEscape": url.PathEscape,
 }
 
 type nativeFn func(p *Path, g *G, fr *Frame, fv *FuncV, args []Value) (Value, int)
@@ -123,15 +123,15 @@ func init() {
 		"(*regexp.Regexp).MatchString":               natRegexpMatch,
 		"(*encoding/base64.Encoding).DecodeString":   natB64Decode,
 		"(*encoding/base64.Encoding).EncodeToString": natB64Encode,
-		"(*io/fs.PathError).Error": natConstStr("file-system call failed"),
-		"internal/abi.NoEscape": natFirstArg, // identity (escape-analysis hint only)
-		"internal/bytealg.MakeNoZero": natMakeNoZero,
-		"os.Exit":         natFatal,
-		"os.Setenv":       natNoop,
-		"os.Unsetenv":     natNoop,
-		"os.Getenv":       natConstStr(""),
-		"os.Getpid":       natZero,
-		"runtime.Gosched": natSleep, "runtime.GC": natNoop, "runtime.NumGoroutine": natZero, "runtime.Stack": natZero,
+		"(*io/fs.PathError).Error":                   natConstStr("file-system call failed"),
+		"internal/abi.NoEscape":                      natFirstArg, // identity (escape-analysis hint only)
+		"internal/bytealg.MakeNoZero":                natMakeNoZero,
+		"os.Exit":                                    natFatal,
+		"os.Setenv":                                  natNoop,
+		"os.Unsetenv":                                natNoop,
+		"os.Getenv":                                  natConstStr(""),
+		"os.Getpid":                                  natZero,
+		"runtime.Gosched":                            natSleep, "runtime.GC": natNoop, "runtime.NumGoroutine": natZero, "runtime.Stack": natZero,
 		"strconv.Itoa": natItoa, "strconv.FormatInt": natFormatInt, "strconv.Atoi": natAtoi, "strconv.ParseInt": natParseInt,
 		"github.com/satori/go.uuid.NewV4":         natFreshUUID,
 		"(github.com/satori/go.uuid.UUID).String": natUUIDString,
